@@ -11,11 +11,24 @@ from .kernel import _addr_raw
 
 KINDS_C11 = ('invalid_ke_never_offered', 'foreign_child_response', 'foreign_init_response', 'multi_proposal_request')
 KINDS_C10 = ('bad_reply',)
+KINDS_C17 = ('auth_malformed',)
 KINDS_C12 = ('widen_response', 'flip_mode_response', 'ts_list_request', 'narrow_rekey_response')
 
 
 def _rb(r, n):
     return bytes(r.getrandbits(8) for _ in range(n))
+
+
+def _seal_raw(h, first, inner, suite, sk_a, sk_e, iv):
+    """Reference SK sealing of arbitrary inner octets."""
+    pad = (-(len(inner) + 1)) % 16
+    ct = R.aes_cbc(sk_e, iv, inner + b'\0' * pad + bytes([pad]))
+    body = iv + ct + b'\0' * suite.icv
+    flags = (8 if h['I'] else 0) | (32 if h['R'] else 0)
+    msg = bytearray(R.enc_header(h['spi_i'], h['spi_r'], R.P_SK, h['exch'], flags, h['id'], 28 + 4 + len(body)) +
+                    struct.pack('>BBH', first, 0, 4 + len(body)) + body)
+    msg[-suite.icv:] = R.integ(suite.integ, sk_a, bytes(msg[:-suite.icv]))
+    return bytes(msg)
 
 
 def make(kind, seed, world, ip, tap, reach):
@@ -261,6 +274,164 @@ def make(kind, seed, world, ip, tap, reach):
                                 f'proposal not drawn from its offer ({t["what"]})')
             return None
         return rule, verdict
+
+    # ------------------------------------------------------------------------------------------------------------
+    if kind == 'auth_malformed':
+        # a peer that is authenticated (holds the session keys) but sends protected messages whose content is malformed: field lengths the
+        # specification forbids, values out of range, missing / duplicated payloads, or octets of the plaintext damaged before sealing
+        p_hit = r0.choice([0.1, 0.25, 0.6])
+        until = world.scenario.get('quiet_from')
+        MUTS = ('sa_spi_len', 'ke_len', 'ke_value', 'nonce_len', 'ts_inverted', 'ts_odd', 'ts_empty', 'delete_spi_size', 'delete_unknown',
+                'notify_spi', 'notify_data', 'dup_payload', 'drop_payload', 'proposal_odd', 'id_odd', 'auth_odd', 'raw_flip', 'raw_trunc',
+                'add_delete', 'add_rekey_notify', 'unknown_critical', 'swap_exchange')
+
+        def rule(meta, data):
+            if until is not None and world.now >= until:
+                return None
+            try:
+                h = R.dec_header(data)
+            except R.DecodeError:
+                return None
+            if h['exch'] == R.IKE_SA_INIT:
+                return None
+            r = random.Random(f'byz:{seed}:{meta["key"]}')
+            if r.random() >= p_hit:
+                return None
+            opened = ip.open(data)
+            if opened is None:
+                return None
+            _, pls, s = opened
+            rb = lambda n: _rb(r, n)
+            hd = {'spi_i': h['spi_i'], 'spi_r': h['spi_r'], 'exch': h['exch'], 'I': h['I'], 'R': h['R'], 'id': h['id']}
+            find = lambda *ts: next((p for p in pls if p['type'] in ts), None)
+            raw = None
+            for _ in range(6):
+                m = r.choice(MUTS)
+                sa, ke, no, tsi = find(R.P_SA), find(R.P_KE), find(R.P_NONCE), find(R.P_TSi, R.P_TSr)
+                if m == 'sa_spi_len' and sa and sa['proposals']:
+                    sa['proposals'][r.randrange(len(sa['proposals']))]['spi'] = rb(r.choice([0, 1, 3, 5, 7, 8, 9, 16, 255]))
+                elif m == 'ke_len' and ke:
+                    ke['data'] = r.choice([b'', ke['data'][:-1], ke['data'] + b'\0', ke['data'][:1], ke['data'] * 2])
+                elif m == 'ke_value' and ke:
+                    ke['data'] = r.choice([b'\0' * len(ke['data']), b'\xff' * len(ke['data']), b'\0' * (len(ke['data']) - 1) + b'\1'])
+                elif m == 'nonce_len' and no:
+                    no['data'] = rb(r.choice([0, 1, 15, 257, 2000]))
+                elif m == 'ts_inverted' and tsi and tsi['selectors']:
+                    sel = r.choice(tsi['selectors'])
+                    if r.random() < 0.5:
+                        sel['saddr'], sel['eaddr'] = b'\xff' * len(sel['saddr']), b'\0' * len(sel['saddr'])
+                    else:
+                        sel['sport'], sel['eport'] = 65535, 0
+                elif m == 'ts_odd' and tsi and tsi['selectors']:
+                    sel = r.choice(tsi['selectors'])
+                    how = r.choice(['type', 'addrlen', 'proto'])
+                    if how == 'type':
+                        sel['ts_type'] = r.choice([0, 9, 255, 8 if sel['ts_type'] == 7 else 7])
+                    elif how == 'addrlen':
+                        n = r.choice([0, 3, 5, 15, 17])
+                        sel['saddr'], sel['eaddr'] = rb(n), rb(n)
+                    else:
+                        sel['proto'] = r.choice([1, 58, 255])
+                elif m == 'ts_empty' and tsi:
+                    tsi['selectors'] = []
+                elif m in ('delete_spi_size', 'delete_unknown', 'add_delete'):
+                    d = find(R.P_DELETE)
+                    if d is None:
+                        if m != 'add_delete' or h['exch'] != R.INFORMATIONAL:
+                            continue
+                        d = {'type': R.P_DELETE, 'proto': r.choice([1, 2, 3, 0, 9]), 'spis': [rb(4) for _ in range(r.randint(0, 3))]}
+                        if d['proto'] == 1 and r.random() < 0.5:
+                            d['spis'] = []
+                        pls.append(d)
+                    elif m == 'delete_spi_size':
+                        d['spi_size'] = r.choice([0, 1, 3, 5, 8, 255])
+                    else:
+                        d['spis'] = [rb(4) for _ in range(r.randint(1, 40))]
+                        d['proto'] = r.choice([d['proto'], 1, 2, 3, 0])
+                elif m == 'notify_spi':
+                    n = find(R.P_NOTIFY)
+                    if n is None:
+                        continue
+                    n['spi'] = rb(r.choice([0, 1, 3, 5, 8, 16]))
+                    n['proto'] = r.choice([n['proto'], 0, 1, 2, 3, 200])
+                elif m == 'notify_data':
+                    pls.insert(r.randrange(len(pls) + 1), {'type': R.P_NOTIFY, 'proto': r.choice([0, 1, 3]), 'spi': b'',
+                                                          'ntype': r.choice([1, 4, 7, 9, 11, 14, 17, 24, 34, 35, 36, 38, 39, 43, 44, 16390, 16391, 16393, 16394, 16404, 65535]),
+                                                          'data': rb(r.choice([0, 1, 2, 3, 32]))})
+                elif m == 'add_rekey_notify':
+                    pls.insert(0, {'type': R.P_NOTIFY, 'proto': r.choice([3, 2, 1, 0]), 'spi': rb(r.choice([4, 4, 8, 0])), 'ntype': R.N_REKEY_SA, 'data': b''})
+                elif m == 'dup_payload' and pls:
+                    i = r.randrange(len(pls))
+                    pls.insert(i, copy.deepcopy(pls[i]))
+                elif m == 'drop_payload' and pls:
+                    pls.pop(r.randrange(len(pls)))
+                elif m == 'proposal_odd' and sa and sa['proposals']:
+                    pr = r.choice(sa['proposals'])
+                    how = r.choice(['num', 'proto', 'no_transforms', 'unknown_type', 'unknown_id', 'many', 'attr'])
+                    if how == 'num':
+                        pr['num'] = r.choice([0, 2, 255])
+                    elif how == 'proto':
+                        pr['proto'] = r.choice([0, 1, 2, 3, 4, 255])
+                    elif how == 'no_transforms':
+                        pr['transforms'] = []
+                    elif how == 'unknown_type':
+                        r.choice(pr['transforms'])['type'] = r.choice([0, 6, 7, 255])
+                    elif how == 'unknown_id':
+                        r.choice(pr['transforms'])['id'] = r.choice([0, 1, 999, 65535])
+                    elif how == 'many':
+                        pr['transforms'] = (pr['transforms'] * 40)[:200]
+                    else:
+                        t = r.choice(pr['transforms'])
+                        t['attrs'] = [(14, r.choice([0, 1, 64, 129, 65535]))] if r.random() < 0.5 else [(r.choice([1, 14, 15]), rb(r.choice([0, 1, 7])))]
+                elif m == 'id_odd':
+                    i = find(R.P_IDi, R.P_IDr)
+                    if i is None:
+                        continue
+                    i['id_type'] = r.choice([0, 1, 2, 3, 5, 9, 11, 200])
+                    i['data'] = r.choice([b'', i['data'], rb(3), rb(17), b'\xff\xfe' * 4])
+                elif m == 'auth_odd':
+                    a = find(R.P_AUTH)
+                    if a is None:
+                        continue
+                    a['method'] = r.choice([0, 1, 2, 3, 9, 14, 255])
+                    a['data'] = r.choice([b'', a['data'][:-1], a['data'] + b'\0', rb(20)])
+                elif m == 'unknown_critical':
+                    pls.insert(r.randrange(len(pls) + 1), {'type': r.choice([1, 32, 49, 53, 200, 255]), 'data': rb(r.choice([0, 4, 40])), 'critical': r.random() < 0.5})
+                elif m == 'swap_exchange':
+                    hd['exch'] = r.choice([e for e in (35, 36, 37, 34, 38, 0) if e != h['exch']])
+                elif m in ('raw_flip', 'raw_trunc'):
+                    try:
+                        inner = bytearray(R.enc_chain(pls))
+                    except Exception:
+                        continue
+                    if not inner:
+                        continue
+                    if m == 'raw_flip':
+                        for _ in range(r.randint(1, 4)):
+                            # bias towards length / count / size octets: flips in the first 8 octets of a payload are the structural ones
+                            inner[r.randrange(len(inner))] ^= 1 << r.randrange(8)
+                    else:
+                        inner = inner[:r.randrange(len(inner))]
+                    raw = (pls[0]['type'] if pls else 0, bytes(inner))
+                else:
+                    continue
+                break
+            else:
+                return None
+            a, e = (s.keys['ai'], s.keys['ei']) if h['I'] else (s.keys['ar'], s.keys['er'])
+            try:
+                if raw is not None:
+                    new = _seal_raw(hd, raw[0], raw[1], s.suite, a, e, rb(16))
+                else:
+                    new = R.sk_seal(hd, pls, s.suite, a, e, rb(16))
+            except Exception:
+                return None
+            count('byz.auth_malformed')
+            count('byz.auth_malformed.' + m)
+            count('byz.auth_malformed.' + ('response' if h['R'] else 'request'))
+            return [(new, 0.0)]
+        rule.label = 'byz.auth_malformed'
+        return rule, lambda w: None
 
     # ------------------------------------------------------------------------------------------------------------
     if kind == 'bad_reply':
